@@ -4,6 +4,7 @@ import (
 	"encoding/json"
 	"fmt"
 	"os"
+	"runtime"
 	"sort"
 	"strconv"
 	"strings"
@@ -150,6 +151,7 @@ func RunH(t *testing.T, sc Script, o CaseOpts) (ex *Exec) {
 		ex.Ex = o.Ex
 		ex.Registry = o.Registry
 		ex.Gauge0 = sessionGauge()
+		ex.G0 = runtime.NumGoroutine()
 		ex.Run(sc)
 		w.Shutdown()
 	})
